@@ -587,6 +587,8 @@ int closedir(DIR *d) {
 static int (*real_clock_gettime)(clockid_t, struct timespec *);
 static long long clock_step = -1;
 static long long clock_now = 0;
+/* for in-process harnesses: switch the virtual monotonic clock on (step in ns, 0 = standing still) or off (-2) at run time */
+void verif_set_clock_step(long long step) { clock_step = step; }
 int clock_gettime(clockid_t clk, struct timespec *ts) {
     if (!real_clock_gettime) real_clock_gettime = dlsym(RTLD_NEXT, "clock_gettime");
     if (clock_step == -1) {
